@@ -262,8 +262,8 @@ type outcome struct {
 	apply   func(obsCap func() int)
 	mutates bool
 	dest    *target // place whose capacity is observed after a growing append
-	// known names a shape affected by the known defect "appendSlice appends element by element"
-	// (growth | error); such steps are skipped unless VERIF_C10_STRICT_APPEND is set
+	// known names a shape that was hit by the (fixed) defect "appendSlice appends element by
+	// element" (growth | error); a state mismatch on such a step gets its own signature
 	known string
 }
 
@@ -413,6 +413,10 @@ func planWrite(t target, st *Step) outcome {
 		}
 		return o
 	case "map":
+		if t.v.IsNil() {
+			// Go panics on a store into a nil map, anko allocates one: left open
+			return outcome{skip: "store_into_nil_map"}
+		}
 		k, ks := mapKey(t, st.Key)
 		switch ks {
 		case kEither:
@@ -462,9 +466,9 @@ func planApp(t target, dst target, st *Step) outcome {
 				}
 				return errOut("conv")
 			}
-			// known defect: with operands of different element types anko appends one element at a
-			// time, so elements that still fit are written into the shared array before a later
-			// element forces a reallocation or fails to convert
+			// shape of a fixed defect: with operands of different element types anko used to append
+			// one element at a time, so elements that still fit were written into the shared array
+			// before a later element forced a reallocation or failed to convert
 			perElem := rhsElemType(st.V) != et
 			spare := t.v.Cap() - t.v.Len()
 			for i := 0; i < xv.Len(); i++ {
@@ -692,6 +696,9 @@ func planMwrite(t target, st *Step) outcome {
 		kt := t.v.Type().Key()
 		if kt != tIface && kt != tString {
 			return outcome{skip: "member_on_non_string_key_map"}
+		}
+		if t.v.IsNil() {
+			return outcome{skip: "store_into_nil_map"}
 		}
 		k, _ := conv(st.Name, kt)
 		val, cs := conv(st.V.goValue(), t.v.Type().Elem())
